@@ -59,8 +59,7 @@ impl VarSize for ScriptLangTag<'_> {
         if bytes.is_empty() {
             return None;
         }
-        let end = data
-            .as_bytes()
+        let end = bytes
             .iter()
             .position(|b| *b == b',')
             .map(|pos| pos + 1) // include comma
@@ -73,7 +72,12 @@ impl<'a> FontRead<'a> for ScriptLangTag<'a> {
     fn read(data: FontData<'a>) -> Result<Self, ReadError> {
         std::str::from_utf8(data.as_bytes())
             .map_err(|_| ReadError::MalformedData("LangScriptTag must be utf8"))
-            .map(|s| ScriptLangTag(s.trim_matches([' ', ','])))
+            .map(|s| {
+                // the data may extend past this tag (`VarLenArray::get`): stop at the separator
+                let s = s.trim_start_matches([' ', ',']);
+                let s = s.split(',').next().unwrap_or(s);
+                ScriptLangTag(s.trim_end_matches(' '))
+            })
     }
 }
 
